@@ -11,7 +11,7 @@ import itertools
 
 from vlib import qN, qbytes, qlist, qopt, run_impl
 
-GEN_DEPS = ("AesTables.v", "gen_aes_tables", "Consts.v", "gen_consts")
+GEN_DEPS = ("AesTables.v", "gen_aes_tables", "Consts.v", "gen_consts", "Pad.v", "gen_pad")
 MODEL_TARGETS = ["Model/Aes.vo", "Model/AesModes.vo", "Model/Cbc.vo"]
 IMPORTS = "From Bec2 Require Import Gen.AesTables Model.Cbc Model.Aes Model.AesModes."
 
